@@ -24,6 +24,15 @@ class Dt(float):
     """Frame time handed to process(): a float (SupportsFloat) whose identity can be tracked."""
 
 
+class Boom(Exception):
+    """Raised once by a lifecycle callback in the fault harness."""
+
+
+class Log(list):
+    """Shared call log; `fault` = {'event': name, 'armed': bool, 'fired': instance or None} or None."""
+    fault = None
+
+
 class _Logged(desper.Processor):
     def __init__(self, log, label):
         self.log = log
@@ -40,6 +49,11 @@ class _Logged(desper.Processor):
             listed = w.processors
             found = w.get_processor(type(self))
         self.log.append((event, self, w, listed, found))
+        f = getattr(self.log, 'fault', None)
+        if f is not None and f['armed'] and f['event'] == event:
+            f['armed'] = False
+            f['fired'] = self
+            raise Boom('%s of %r fails' % (event, self))
 
     def __repr__(self):
         return self.label
@@ -237,12 +251,43 @@ def set_dispatching(sp, w, m, log, value, when):
     del log[:]
 
 
-def h_procs(sp, L=3, n_types=4, mid_process=True, build=0, readd=True, pick=None, toggle=False, explicit_ok=True):
+def consistent_after_fault(sp, w, m, types, when):
+    """A callback raised in the middle of an operation.  Whatever the world decided to keep, its views must
+    agree with each other (no reference model here); then the model is re-read from world.processors."""
+    listed = w.processors
+    found = []
+    for T in types:
+        g = w.get_processor(T)
+        if g is not None and not any(g is q for q in found):
+            found.append(g)
+    sp.check(len(listed) == len(found) and all(any(p is g for g in found) for p in listed), 'fault-views-agree',
+             '%s: processors lists %r, get_processor finds %r' % (when, listed, found))
+    kinds = [type(p) for p in listed]
+    sp.check(all(kinds.count(k) == 1 for k in kinds), 'fault-one-per-type',
+             '%s: processors lists two processors of one exact type: %r' % (when, listed))
+    for p in listed:
+        sp.check(p.world is w, 'fault-knows-world', '%s: listed processor %r has world %r' % (when, p, p.world))
+    # re-read: the listed processors, in listed order, with the priorities they show
+    known = list(m.reg.values()) + list(m.gone)
+    m.reg = {}
+    m.clock = 0
+    for p in listed:
+        m.add(p, p.priority, id(p) in m.explicit)
+    m.gone = [q for q in known if not any(q is p for p in listed)]
+
+
+def h_procs(sp, L=3, n_types=4, mid_process=True, build=0, readd=True, pick=None, toggle=False, explicit_ok=True,
+            fault=False):
     types = [TYPES[i] for i in pick] if pick else TYPES[:n_types]
     w = World()
     m = Model()
-    log = []
+    log = Log()
     serial = 0
+    fault_step = fault_event = None
+    if fault:
+        # one lifecycle callback raises once: in which operation, and which kind of callback
+        fault_step = build + sp.choose(L, 'fault-step')
+        fault_event = sp.pick(['on_add', 'on_remove'], 'fault-event')
     if toggle and sp.flag('start-disabled'):
         set_dispatching(sp, w, m, log, False, 'start')
         sp.cover('start-disabled')
@@ -251,11 +296,15 @@ def h_procs(sp, L=3, n_types=4, mid_process=True, build=0, readd=True, pick=None
         # the first `build` steps add one processor each of types[0], types[1], ... (any priorities)
         ops = [0, 1] + ([2] if mid_process else []) + ([3] if readd else []) + ([4] if toggle else [])
         op = 0 if step < build else sp.pick(ops, 'op%d' % step)
+        if step == fault_step:
+            log.fault = dict(event=fault_event, armed=True, fired=None)
+            new_instance = None
         try:
             if op == 0:
                 T = types[step] if step < build else sp.pick(types, 'type%d' % step)
                 serial += 1
                 p = T(log, '%s#%d' % (T.__name__, serial))
+                new_instance = p
                 old = m.reg.get(T)
                 expected = []
                 if old is not None:
@@ -355,8 +404,32 @@ def h_procs(sp, L=3, n_types=4, mid_process=True, build=0, readd=True, pick=None
                          '%s: re-adding %r delivered %r, expected on_remove+on_add for it or nothing' % (
                              when, p, got))
                 del log[:]
+        except Boom as ex:
+            if log.fault is None or log.fault['fired'] is None:
+                sp.fail('op-raises', '%s: operation raised %r' % (when, ex))
+            sp.note('  -> raised %r' % (ex,))
         except Exception as ex:     # noqa
             sp.fail('op-raises', '%s: operation raised %r' % (when, ex))
+        if step == fault_step:
+            fired = log.fault['fired']
+            log.fault = None
+            del log[:]
+            if fired is None:
+                sp.assume(False)        # no such callback in this operation: the plain history, covered elsewhere
+            if fault_event == 'on_add':
+                sp.cover('fault-in-on_add')
+            elif op == 0:
+                sp.cover('fault-in-on_remove-of-replaced')
+            else:
+                sp.cover('fault-in-remove_processor')
+            if step < build + L - 1:
+                sp.cover('operations-after-fault')
+            if new_instance is not None and not any(new_instance is q for q in w.processors):
+                m.gone.append(new_instance)
+            try:
+                consistent_after_fault(sp, w, m, types, when + ' (after the failing callback)')
+            except Exception as ex:     # noqa
+                sp.fail('op-raises', '%s: a query after the failing callback raised %r' % (when, ex))
         try:
             observe(sp, w, m, types, when)
         except Exception as ex:     # noqa
@@ -384,12 +457,15 @@ _DISABLED = ['start-disabled', 'disable-mid-history', 'add-while-disabled', 'rep
              'remove-while-disabled', 'remove-handler-without-on_remove', 'add-handler-without-on_add-while-disabled',
              'remove-handler-without-on_remove-while-disabled', 'flush', 'flush-several-operations',
              'process-while-disabled']
+_FAULT = ['fault-in-on_add', 'fault-in-on_remove-of-replaced', 'fault-in-remove_processor', 'operations-after-fault']
 _READD = ['readd-explicit', 'readd-omitted', 'readd-among-several']
 
 HARNESSES = {
     'procs': dict(fn=h_procs, nontrivial=_TAGS + _READD, required=_TAGS + _READD),
     # dispatching disabled at a symbolic point (or from the start), enabled again later / at the end
     'disabled': dict(fn=h_procs, nontrivial=_DISABLED, required=_DISABLED),
+    # one lifecycle callback raises once; consistency of the world's own views, then the usual oracle again
+    'fault': dict(fn=h_procs, nontrivial=_FAULT, required=_FAULT),
     'noreadd': dict(fn=h_procs, nontrivial=_TAGS, required=_TAGS),
     # same function started from a built world (first `build` steps are forced adds): longer lists
     'built': dict(fn=h_procs, nontrivial=_TAGS + _READD + ['four'],
@@ -401,12 +477,15 @@ TIERS = {
         ('procs', dict(L=3, n_types=4)),
         ('built', dict(L=1, n_types=4, build=3)),
         ('disabled', dict(L=4, pick=[0, 4, 5], toggle=True, readd=False, explicit_ok=False)),
+        ('fault', dict(L=3, pick=[0, 1, 4, 5], readd=False, explicit_ok=False, fault=True)),
     ],
     'thorough': [
         ('procs', dict(L=4, n_types=4)),
         ('built', dict(L=2, n_types=4, build=3)),
         ('disabled', dict(L=5, pick=[0, 4, 5], toggle=True, readd=False, explicit_ok=False)),
         ('disabled', dict(L=3, pick=[0, 1, 4, 5], toggle=True, readd=False)),
+        ('fault', dict(L=4, pick=[0, 1, 4, 5], readd=False, explicit_ok=False, fault=True)),
+        ('fault', dict(L=3, pick=[0, 1, 2], readd=False, fault=True)),
         ('noreadd', dict(L=5, n_types=3, mid_process=False, readd=False)),
     ],
 }
@@ -428,11 +507,13 @@ BOUNDS = {
              'class defaults 0, 0, 5, -3 (P3 is not an event handler); priorities: any integer or omitted; '
              'dispatching disabled: all sequences of 4 operations (add / remove / process / toggle dispatch_enabled) '
              'over P0, P4 (on_add only), P5 (on_remove only) with default priorities, started enabled or disabled, '
-             'enabled again at the end',
+             'enabled again at the end; failing callback: all sequences of 3 operations over P0, P1(P0), P4, P5 with one '
+             'on_add or on_remove raising once in a chosen operation',
     'thorough': 'all sequences of 4 operations over the 4 classes, 2 operations after the built world, and all '
                 'sequences of 5 add-fresh/remove operations over P0, P1(P0), P2; each followed by a final process(dt); priorities: any integer or omitted; '
                 'dispatching disabled: 5 operations over P0, P4, P5 (default priorities) and 3 operations over P0, '
-                'P1(P0), P4, P5 with symbolic priorities',
+                'P1(P0), P4, P5 with symbolic priorities; failing callback: 4 operations over P0, P1(P0), P4, P5 (default '
+                'priorities) and 3 operations over P0, P1(P0), P2 with symbolic priorities',
 }
 ASSUMPTIONS = [
     'add_processor gets a fresh instance, or (re-add operation) the very instance currently registered for its '
@@ -445,6 +526,13 @@ ASSUMPTIONS = [
     'order, or none at all, are both accepted',
     '"order they were added" refers to the add_processor call that registered the instance currently listed',
     'processors do not add/remove processors or raise inside process()',
+    'harness "fault": in one symbolically chosen operation the first on_add (or on_remove) callback raises once '
+    '(dispatching enabled; the exception is expected to propagate to the caller).  The statement does not say '
+    'what such an operation leaves behind, so right after it only agreement of the world with itself is required: '
+    'world.processors holds exactly the objects get_processor finds for the harness types, no two of one exact '
+    'type, each with .world set to the world; the reference model is then re-read from world.processors (listed '
+    'order = insertion order, priorities as read back) and the usual oracle, including process(dt), applies to '
+    'the rest of the history',
     'harness "disabled": world.dispatch_enabled is switched off at the start and/or toggled at symbolic points of '
     'the history and switched on again at the end.  While it is off no on_add/on_remove of a processor may run '
     '(they are postponed, the mechanism of C02/C04); the enabling assignment must not raise and must deliver '
